@@ -1,7 +1,8 @@
 (* C03 — Inline SQL selects exactly the rows the query means. *)
 Require Import Parser Render PgModel QuerySem SqlSem SqlFrag.
 Require Import SemPattern.
-Require SqlParse SqlSemProof SqlEndToEnd SqlSucceeds.
+Require SqlParse SqlSemProof SqlEndToEnd SqlSucceeds SqlQueryText.
+Require Api Lex LexWs Printer PrintedText.
 From Coq Require Import List String ZArith.
 Import ListNotations.
 
@@ -57,6 +58,24 @@ Proof.
   split; [exact R|]. split; [exact (SqlEndToEnd.render_reads o2 e ts a s T Ok Nm R)|exact (SqlSemProof.tr_sem r [] e ts a T S)].
 Qed.
 
+(* The property as stated, from the query TEXT: for a query printed from a specification tree (Spec/Printer, the trees of C05:
+   ASCII tokens that lex to themselves, parentheses at least where the precedence table requires them) whose parse is a tree of
+   the fragment, ToPostgres - Parse, then Render - returns a text, PostgreSQL reads one expression from it, and that expression is
+   true on exactly the rows on which the query is true. (SqlQueryText.premises_are_satisfiable: a concrete query meets every premise.) *)
+Theorem C03_query_text_to_rows :
+  forall (o : oracle) (o2 : oracle2) (cl : Lex.classes),
+  (forall r, Lex.is_space r = true -> Lex.is_alnum cl r = false) ->
+  forall (t : Printer.qt) (ts : list tok) (a : ast),
+  Printer.wfq o t -> Forall (LexWs.lexes_alone cl) (map PrintedText.ltok (Printer.pr t)) ->
+  tr (Printer.want o t) = Some (ts, a) ->
+  side (Printer.want o t) = true -> text_ok (Printer.want o t) = true -> names_ok (Printer.want o t) = true ->
+  SqlSucceeds.leaves_ok o2 (Printer.want o t) = true ->
+  exists s : string,
+    Api.to_postgres o o2 cl "" (PrintedText.text_of (Printer.pr t)) = Ret (s, None) /\
+    pg_read (str s) = Some a /\
+    forall r : row, ssem r [] a = qsem r (Printer.want o t).
+Proof. exact SqlQueryText.to_postgres_on_printed_fragment_query. Qed.
+
 (* the premises are met by a tree with every construct of the fragment: a must-clause over a range and a negated wildcard
    pattern, OR a value list with a negative integer AND a prohibited quoted string, OR a comparison *)
 Definition lit (v : value) : Parser.expr := E v Literal VNil 0%Z 0%Z.
@@ -77,3 +96,4 @@ Print Assumptions C03_grammar_reads_the_query_structure.
 Print Assumptions C03_sql_true_on_exactly_the_rows_of_the_query.
 Print Assumptions C03_rendered_sql_is_true_on_exactly_the_rows_of_the_query.
 Print Assumptions C03_fragment_renders_and_selects_exactly_the_rows_of_the_query.
+Print Assumptions C03_query_text_to_rows.
